@@ -27,6 +27,9 @@ type c06Case struct {
 	EarlyAt int `json:"early_at,omitempty"`
 	// ops[CloneFrom:CloneTo] are emitted into a Clone that is appended back (0,0 = everything directly); with Sibling a
 	// second clone made at the same point gets a NOP and then the same calls, each right after the kept clone, and is discarded
+	// Short > 0 (without clones): the buffer is that many bytes too small, so calls near the end are refused (and recovered
+	// by the caller, who goes on): a refused reference is no reference
+	Short     int  `json:"short,omitempty"`
 	CloneFrom int  `json:"clone_from,omitempty"`
 	CloneTo   int  `json:"clone_to,omitempty"`
 	Sibling   bool `json:"sibling,omitempty"`
@@ -156,9 +159,14 @@ func c06Check(c c06Case) error {
 	if c.Tight {
 		capacity -= 8
 	}
+	useClone := c.CloneTo > c.CloneFrom && c.CloneTo <= len(c.Ops) && (c.EarlyAt <= c.CloneFrom || c.EarlyAt >= c.CloneTo)
+	if c.Short > 0 && !useClone {
+		if capacity = needOf(c.Ops) - c.Short; capacity < 1 {
+			capacity = 1
+		}
+	}
 	p := &emPair{em: asm.NewEmitter(make([]byte, capacity), c.Listing), m: asmcat.NewModel(capacity, false, c.Listing)}
 	orig := p.em
-	useClone := c.CloneTo > c.CloneFrom && c.CloneTo <= len(c.Ops) && (c.EarlyAt <= c.CloneFrom || c.EarlyAt >= c.CloneTo)
 	var sib *asm.Emitter
 	join := func() error {
 		var pan interface{}
@@ -292,6 +300,10 @@ func TestC06(t *testing.T) {
 							ev.Class("part-emitted-through-Clone+Append/second-clone-alive")
 						}
 					}
+				}
+				if c.CloneTo == 0 && rapid.IntRange(0, 4).Draw(t, "short") == 0 {
+					c.Short = rapid.IntRange(1, 6).Draw(t, "short-by")
+					ev.Class("buffer-too-small-by-1-to-6-bytes:refused-calls-then-Finalize")
 				}
 				r.Check(t, "rapid", c, func() error { return c06Check(c) })
 				// classify with the model
